@@ -143,6 +143,26 @@ def gen_record(rng, kind: str, version: int, quick: bool, ev: dict) -> dict:
                 rng.choice([1.0, 1.0, 1.5, 2.0, 0.1, 0.5, 1e-40, -0.0, 2.0 / 3.0, float("nan"), 1e300]),
                 gen_attrib(rng, v2 and rng.chance(1, 6), lists, strict_keys),
             ])
+    if na >= 1 and rng.chance(1, 4):
+        # a structure is a multigraph: parallel bonds between one pair (same and reversed orientation, different type / label /
+        # attributes), self-bonds, repeated bond labels, repeated atom labels, atoms without any bond
+        x = rng.below(na)
+        y = (x + 1) % na
+        for j in range(rng.range(2, 4)):
+            if na >= 2:
+                a1, a2 = (x, y) if j % 2 == 0 else (y, x)
+                bonds.append([a1, a2, rng.choice(["dup", "dup", None, f"p{j}"]), rng.choice(ev["btype"]), rng.choice(ev["bstereo"]),
+                              rng.choice([1.0, 1.5, 2.0, 0.5]), gen_attrib(rng, v2 and rng.chance(1, 3), lists, strict_keys)])
+        if rng.chance(1, 2):
+            z = rng.below(na)
+            bonds.append([z, z, "self", rng.choice(ev["btype"]), 0, 1.0, {}])
+            if rng.chance(1, 2):
+                bonds.append([z, z, "self", rng.choice(ev["btype"]), 0, 2.0, {}])
+        if bonds and rng.chance(1, 2):
+            bonds.append(copy.deepcopy(bonds[rng.below(len(bonds))]))          # an exact twin of an existing bond
+        for a in atoms[: max(1, na // 2)]:
+            a[2] = "same"
+        rng.shuffle(bonds)
     rec = {"kind": kind,
            "name": rng.choice(["mol", "x", "", "é😀", "unknown", "name with space", f"m{rng.below(1000)}"]),
            "charge": rng.choice([0, 0, 1, -1, -2, 3]), "mult": rng.choice([1, 1, 2, 3, 5]),
@@ -161,6 +181,30 @@ def gen_record(rng, kind: str, version: int, quick: bool, ev: dict) -> dict:
 def cl_ints() -> list:
     return [127, 128, 255, 256, 65535, 65536, 2**32 - 1, 2**32, 2**64 - 1, -1, -32, -33, -128, -129, -32768, -32769,
             -2**31, -2**31 - 1, -2**63]
+
+
+def multigraph_of(rec: dict, version: int) -> dict:
+    """the record with its first bond doubled (other orientation, other type / label / attributes), tripled (an exact twin), a
+    self-bond on the last atom (twice), one more atom that has no bond at all, and two atoms sharing one label"""
+    r = copy.deepcopy(rec)
+    b0 = r["bonds"][0]
+    r["bonds"].insert(1, [b0[1], b0[0], "parallel", 2 if b0[3] != 2 else 3, b0[4], 1.5, {} if version == 1 else {"twin": 1}])
+    r["bonds"].append(copy.deepcopy(b0))
+    last = len(r["atoms"]) - 1
+    r["bonds"].append([last, last, "self", 1, 0, 1.0, {}])
+    r["bonds"].insert(0, [last, last, "self", 2, 0, 2.0, {}])
+    lone = copy.deepcopy(r["atoms"][0])
+    lone[2] = r["atoms"][1][2]                      # a label that another atom carries already
+    r["atoms"].append(lone)
+    if r["kind"] == "mol":
+        r["coords"].append([7.0, 8.0, 9.0])
+        r["charges"].append(0.25)
+    else:
+        for c in r["coords"]:
+            c.append([7.0, 8.0, 9.0])
+        for q in r["charges"]:
+            q.append(0.25)
+    return r
 
 
 def nontrivial(rec: dict) -> bool:
@@ -196,6 +240,14 @@ def features(rec: dict) -> list:
         f.append("label:empty")
     if any(a[1] is not None for a in rec["atoms"]):
         f.append("isotope")
+    pairs = [frozenset((b[0], b[1])) for b in rec["bonds"]]
+    if len(set(pairs)) < len(pairs):
+        f.append("bonds:parallel")
+    if any(b[0] == b[1] for b in rec["bonds"]):
+        f.append("bonds:self")
+    bonded = {i for b in rec["bonds"] for i in (b[0], b[1])}
+    if rec["bonds"] and len(bonded) < len(rec["atoms"]):
+        f.append("atoms:isolated")
     if rec["charge"] < 0:
         f.append("charge<0")
     if any(b[5] not in (1.0, 1.5, 2.0, 0.5) for b in rec["bonds"]):
@@ -1176,7 +1228,7 @@ def run(ctx):
     _ = ctx.scratch   # also points MOLLI_HOME into the scratch directory before molli is imported
     ctx.rule = ("records: molecules and ensembles over all Element values (incl. Unknown), every member of AtomType/"
                 "AtomStereo/AtomGeom/BondType/BondStereo, None/empty/unicode labels, isotopes, formal charges and spins, "
-                "0..40 (thorough: ..300) atoms, 0..2n bonds, 0..12 conformers, NaN/+-0/inf/subnormal coordinates, nested "
+                "0..40 (thorough: ..300) atoms, 0..2n bonds (multigraphs: parallel bonds of one pair in both orientations, twins, self-bonds, isolated atoms, repeated labels), 0..12 conformers, NaN/+-0/inf/subnormal coordinates, nested "
                 "attribute trees (None, bool, ints to 2^64-1, floats, str, bytes, list, tuple, dict with str and non-str "
                 "keys) on molecule, atoms and bonds; current encoding and legacy encoding (restricted to its schema). "
                 "Each record is stored in a real library file and read back. Session shapes: (a) batches - one writing() session "
@@ -1238,6 +1290,10 @@ def run(ctx):
                     r["attrib"] = {}
                 recs.append(r)
             run_batch(ctx, f"probe_{kind}{version}", kind, version, recs, probe, requests, vary=False)
+            # ... and as multigraphs: the bond sequence is a LIST (parallel bonds, self-bonds, twins, isolated atoms all stay)
+            multi = [multigraph_of(recs[0], version), multigraph_of(recs[1], version)]
+            run_batch(ctx, f"probe_{kind}{version}_multigraph", kind, version, multi + [copy.deepcopy(m) for m in multi], probe, requests,
+                      hows=["plain", "plain", "reparented", "copy-ctor"])
             # the same all-fields-distinct objects reached through every other public construction
             sweep = [(r, h) for h in cl.HOWS[kind][1:] for r in recs[:2]]
             run_batch(ctx, f"probe_{kind}{version}_built", kind, version, [copy.deepcopy(r) for r, _ in sweep], probe, requests,
